@@ -435,8 +435,31 @@ def prove_candidates(src_root, ex: Explorer):
     ex.run(atomic, 'set-parent-atomic')
 
 
+def prove_peer_lookup(src_root, ex: Explorer):
+    """get_distributed_peer(connection): THE peer object of that connection - a user can have several distributed connections (one it
+    opened, one we opened), so the lookup must compare the connection, not only the user name; None when there is none."""
+    def path(ctx: Ctx):
+        it = mk(src_root, ctx)
+        case = ['second-of-same-user', 'first-of-same-user', 'unknown-connection', 'no-username'][ctx.choose(4, 'case')]
+        name = sstr(ctx, 'user')
+        c1 = Stub('connection 1', username=name)
+        c2 = Stub('connection 2', username=name)
+        c3 = Stub('connection 3', username=name if case != 'no-username' else None)
+        other = Stub('connection of somebody else', username=sstr(ctx, 'other'))
+        ctx.assume(other.attrs['username'].t != name.t)
+        p0 = new(it, DN, 'DistributedPeer', username=other.attrs['username'], connection=other)
+        p1 = new(it, DN, 'DistributedPeer', username=name, connection=c1)
+        p2 = new(it, DN, 'DistributedPeer', username=name, connection=c2)
+        dn = new(it, DN, 'DistributedNetwork', distributed_peers=[p0, p1, p2])
+        arg = {'second-of-same-user': c2, 'first-of-same-user': c1}.get(case, c3)
+        r = it.call(it.getattr(dn, 'get_distributed_peer'), [arg], {})
+        want = {'second-of-same-user': p2, 'first-of-same-user': p1}.get(case)
+        ctx.prove(f'C13.peer-lookup[{case}]', r is want, f'returned {r!r}, expected {want!r}')
+    ex.run(path, 'peer-lookup')
+
+
 def items(src_root, tier):
-    return [('candidates', None), ('adv', None), ('check_parent', None), ('branch', 'level'), ('branch', 'root'), ('unset', None), ('admit', None),
+    return [('peer-lookup', None), ('candidates', None), ('adv', None), ('check_parent', None), ('branch', 'level'), ('branch', 'root'), ('unset', None), ('admit', None),
             ('max_children', None), ('session', None)]
 
 
@@ -447,6 +470,8 @@ def run_item(src_root, item, tier):
     try:
         if kind == 'candidates':
             prove_candidates(src_root, ex)
+        elif kind == 'peer-lookup':
+            prove_peer_lookup(src_root, ex)
         elif kind == 'adv':
             prove_adv(src_root, ex)
         elif kind == 'check_parent':
